@@ -141,6 +141,112 @@ def returns_before(body, pos):
         out.append(control_context(body, m.start()))
     return out
 
+
+# --------------------------------------------------------------------------
+# inventory of every per-stream state struct in the sources (round 3): a struct
+# named *StateData*, or deriving from AuxStateInterface / AuxStateData, that is
+# NOT in this table -- or whose member list differs from the one recorded here --
+# is emitted as a FAILED shape check (C06_shapes_all_ok then fails: broken tie).
+#   category "core":  reachable from celeritas::CoreStateData; its members are in
+#                     all_state_fields and must be classified by reset_complete
+#   category "aux":   per-stream auxiliary / user state outside CoreStateData (held in
+#                     AuxStateVec or a StreamStore), with the reason why it cannot leak
+#                     into the per-track step records of a later event
+#   category "unused": other RNG / geometry back-end, device only, or not part of the
+#                     celeritas::Stepper loop in this build
+STATE_STRUCTS = {
+    "celeritas/global/CoreTrackData.hh:CoreStateData": ("core", None, "members checked above"),
+    "celeritas/track/SimData.hh:SimStateData": ("core", None, ""),
+    "celeritas/phys/ParticleData.hh:ParticleStateData": ("core", None, ""),
+    "celeritas/phys/PhysicsData.hh:PhysicsStateData": ("core", None, ""),
+    "celeritas/em/data/AtomicRelaxationData.hh:AtomicRelaxStateData": ("core", None, ""),
+    "celeritas/mat/MaterialData.hh:MaterialStateData": ("core", None, ""),
+    "celeritas/track/TrackInitData.hh:TrackInitStateData": ("core", None, ""),
+    "celeritas/random/XorwowRngData.hh:XorwowRngStateData": ("core", None, ""),
+    "orange/OrangeData.hh:OrangeStateData": ("core", None, ""),
+    "celeritas/track/ExtendFromPrimariesAction.hh:PrimaryStateData": (
+        "aux", ["storage", "count"],
+        "pending primaries of ONE Stepper call: insert_impl overwrites storage[0..count) and count "
+        "(ExtendFromPrimariesAction.cc:167-176), step_impl consumes them and sets count = 0 (:190-195); "
+        "entries beyond count are never read"),
+    "celeritas/track/StatusCheckData.hh:StatusCheckStateData": (
+        "aux", ["action", "order", "status", "post_step_action", "along_step_action"],
+        "debug StatusChecker snapshot, an observer (C06_observer_invariance): it only throws; compared "
+        "dynamically by the status-checker on/off replays"),
+    "celeritas/user/StepData.hh:StepStateData": (
+        "aux", ["data", "scratch", "valid_id", "stream_id"],
+        "step-gather buffers: StepGatherExecutor rewrites track_id of EVERY slot each step (invalid id for "
+        "inactive ones) and the other fields of the active ones before any reader sees them; the buffers ARE "
+        "the step records compared bit-exactly by the replays"),
+    "celeritas/user/StepData.hh:StepStateDataImpl": (
+        "aux", ["points", "track_id", "detector", "event_id", "parent_id", "action_id", "track_step_count",
+                "step_length", "particle", "energy_deposition"], "see StepStateData"),
+    "celeritas/user/StepData.hh:StepPointStateData": (
+        "aux", ["time", "pos", "dir", "volume_id", "energy"], "see StepStateData"),
+    "celeritas/user/SimpleCaloData.hh:SimpleCaloStateData": (
+        "aux", ["energy_deposition", "num_track_slots"],
+        "user tally accumulating over events BY DESIGN (cleared by SimpleCalo::clear); written only, never read by the stepping loop"),
+    "celeritas/user/ParticleTallyData.hh:ParticleTallyStateData": (
+        "aux", ["counts"],
+        "ActionDiagnostic / StepDiagnostic tallies accumulating over events by design; written only by the loop"),
+    "celeritas/user/SlotDiagnostic.cc:SlotDiagnostic": (
+        "aux", ["outfile", "buffer"], "diagnostic output file + scratch buffer rewritten every step; observer"),
+    "celeritas/optical/detail/OffloadParams.hh:OpticalOffloadState": (
+        "aux", ["store", "buffer_size"],
+        "optical offload (Cerenkov/scintillation gather): only exists when optical offload actions are registered; "
+        "none of the replayed problems registers them (an added member still trips this table)"),
+    "celeritas/optical/OffloadData.hh:OffloadStateData": (
+        "aux", ["step", "cerenkov", "scintillation", "offsets"], "see OpticalOffloadState"),
+    "corecel/data/AuxStateData.hh:AuxStateData": (
+        "aux", ["store_"], "generic holder (CollectionStateStore) of the aux structs listed here"),
+    "celeritas/optical/CoreState.hh:CoreStateInterface": (
+        "unused", [], "interface of the separate optical stepping loop (optical::CoreState), not reachable from celeritas::CoreStateData"),
+    "celeritas/optical/CoreTrackData.hh:CoreStateData": (
+        "unused", ["geometry", "particle", "physics", "rng", "sim", "init", "stream_id"],
+        "optical::CoreStateData: state of the separate optical loop (own Stepper-less driver), not used by celeritas::Stepper"),
+    "celeritas/optical/CoreTrackData.hh:PhysicsStateData": ("unused", [], "optical loop (empty placeholder)"),
+    "celeritas/optical/ParticleData.hh:ParticleStateData": ("unused", ["energy", "polarization"], "optical loop"),
+    "celeritas/optical/SimData.hh:SimStateData": (
+        "unused", ["time", "step_length", "status", "post_step_action"], "optical loop"),
+    "celeritas/optical/TrackInitData.hh:TrackInitStateData": ("unused", ["initializers", "vacancies"], "optical loop"),
+    "celeritas/random/CuHipRngData.hh:CuHipRngStateData": ("unused", ["rng"], "device RNG; RngStateData aliases XorwowRngStateData (checked above)"),
+    "geocel/g4/GeantGeoData.hh:GeantGeoStateData": (
+        "unused", ["pos", "dir", "next_step", "safety_radius", "nav_state"], "Geant4 geometry back-end; GeoStateData aliases OrangeStateData (checked above)"),
+    "geocel/vg/VecgeomData.hh:VecgeomStateData": (
+        "unused", ["pos", "dir", "vgstate", "vgnext"], "VecGeom geometry back-end; GeoStateData aliases OrangeStateData (checked above)"),
+    "geocel/rasterize/ImageData.hh:ImageStateData": ("unused", ["image"], "ray-trace imager, not part of transport"),
+}
+STATE_SCAN_DIRS = ("celeritas", "corecel", "orange", "geocel", "accel")
+
+
+def scan_state_structs(repo):
+    """every struct/class DEFINITION named *StateData* or deriving from AuxStateInterface /
+    AuxStateData under src/: list of (key, member names)"""
+    found = []
+    for top in STATE_SCAN_DIRS:
+        base = os.path.join(repo, "src", top)
+        for dp, dn, fns in os.walk(base):
+            dn.sort()
+            for fn in sorted(fns):
+                if not fn.endswith((".hh", ".cc", ".h", ".hpp")):
+                    continue
+                full = os.path.join(dp, fn)
+                rel = os.path.relpath(full, os.path.join(repo, "src"))
+                src = strip_comments(open(full, errors="replace").read())
+                for m in re.finditer(r"\b(?:struct|class)\s+(\w+)\b([^;{()]*)\{", src):
+                    name, base_cl = m.group(1), m.group(2)
+                    aux = re.search(r":\s*(?:public\s+)?(?:\w+::)*AuxState(?:Interface|Data)\b", base_cl)
+                    if "StateData" not in name and not aux:
+                        continue
+                    if name == "S":          # template parameter list of AuxStateData itself
+                        mm = re.search(r"class\s+(\w+)\s+final\s*:", base_cl)
+                        if not mm:
+                            continue
+                        name = mm.group(1)
+                    ms = members(src[m.start():], m.group(1))
+                    found.append(("%s:%s" % (rel, name), [n for _, n in ms or []]))
+    return found
+
 # --------------------------------------------------------------------------
 
 def generate(repo=REPO):
@@ -488,7 +594,34 @@ def generate(repo=REPO):
             if n:
                 slot_ctor_files.append((rel, str(n)))
 
+    # ---- inventory of all state structs (unknown struct / changed member list = broken tie) ----
+    inventory = []
+    seen_keys = set()
+    for key, names in scan_state_structs(repo):
+        seen_keys.add(key)
+        ent = STATE_STRUCTS.get(key)
+        if ent is None:
+            check("state struct %s (members %s) is classified in translators/state_fields.py STATE_STRUCTS" % (key, names), False)
+            inventory.append((key, "UNKNOWN"))
+            continue
+        cat, expect, _why = ent
+        inventory.append((key, cat))
+        if expect is not None:
+            check("state struct %s [%s] still has exactly the recorded members %s (found %s)" % (key, cat, expect, names),
+                  names == expect)
+    for key, (cat, _e, _w) in sorted(STATE_STRUCTS.items()):
+        if cat != "unused":
+            check("classified state struct %s is still present in the sources" % key, key in seen_keys)
+    core_keys = sorted(k for k, v in STATE_STRUCTS.items() if v[0] == "core")
+    check("the 'core' state structs are exactly the ones whose members are in all_state_fields",
+          core_keys == sorted(["celeritas/global/CoreTrackData.hh:CoreStateData", "celeritas/track/SimData.hh:SimStateData",
+                               "celeritas/phys/ParticleData.hh:ParticleStateData", "celeritas/phys/PhysicsData.hh:PhysicsStateData",
+                               "celeritas/em/data/AtomicRelaxationData.hh:AtomicRelaxStateData", "celeritas/mat/MaterialData.hh:MaterialStateData",
+                               "celeritas/track/TrackInitData.hh:TrackInitStateData", "celeritas/random/XorwowRngData.hh:XorwowRngStateData",
+                               "orange/OrangeData.hh:OrangeStateData"]))
+
     return {
+        "state_struct_inventory": inventory,
         "slot_ctor_files": slot_ctor_files,
         "prestep_clears": dedup(prestep_clears),
         "all_state_fields": fields,
@@ -533,6 +666,8 @@ def emit(data, repo=REPO):
                          "cleared by PreStepExecutor on every path of a non-inactive track (also errored ones)"))
     out.append(coq_pairs("slot_ctor_files", data["slot_ctor_files"],
                          "(file, number of explicit TrackSlotId{...} constructions) outside CoreTrackView's thread->slot map"))
+    out.append(coq_pairs("state_struct_inventory", data.get("state_struct_inventory", []),
+                         "(file:struct, category) of every *StateData* / AuxStateInterface struct found in the sources"))
     body = ";\n   ".join("(%s, %s)" % (coq_str(t), "true" if ok else "false") for t, ok in data["shape_checks"])
     out.append("(* source shapes the translator relies on *)\nDefinition shape_checks : list (string * bool) :=\n  [%s].\n" % body)
     return "\n".join(out)
